@@ -25,16 +25,16 @@ def queries(tier):
                        defs={'T': T, 'RANGE': R, 'BLOCKS': B, 'BLK': blk, 'ROUNDS': K, 'MAXOPS': 3 * R + 4}, unwind=3 * R + 6, timeout=900, mem_gb=8,
                        desc='%d workers of %s over %d values, block %d: exactly-once / hit semantics for every schedule with <= %d context switches per thread' % (T, 'parallel_range_blocks' if B else 'parallel_range', R, blk, K - 1),
                        bounds='T=%d range=%d block=%d rounds=%d' % (T, R, blk, K)))
-    lc = [(2, 2, 0, 1), (2, 2, 1, 2)] if tier == 'quick' else [(T, R, B, blk) for T in (1, 2, 3) for R in (0, 1, 2, 3, 4) for (B, blk) in ((0, 1), (1, 1), (1, 2)) if not (B and R % blk)]
+    lc = [(2, 2, 0, 1), (2, 3, 1, 0), (2, 4, 1, 0)] if tier == 'quick' else [(T, R, B, blk) for T in (1, 2, 3) for R in (0, 1, 2, 3, 4) for (B, blk) in ((0, 1), (1, 0))]
     for (T, R, B, blk) in lc:
-        qs.append(dict(name='launch_T%d_R%d_%s%d' % (T, R, 'blk' if B else 'one', blk), unit='launch', harness='h_launch.c',
-                       defs={'T': T, 'RANGE': R, 'BLOCKS': B, 'BLK': blk}, unwind=max(R, T) + 4, timeout=900, mem_gb=8,
+        qs.append(dict(name='launch_T%d_R%d_%s' % (T, R, ('blk%d' % blk if blk else 'blksym') if B else 'one'), unit='launch', harness='h_launch.c',
+                       defs={'T': T, 'RANGE': R, 'BLOCKS': B, 'BLK': blk}, unwind=max(R, T, 4) + 4, timeout=900, mem_gb=8, object_bits=13,
                        desc='real %s body (thread creation, thread_num, join, result) with std::thread modelled as run-at-creation; %d threads, %d values, <=1 hit' % ('parallel_range_blocks' if B else 'parallel_range', T, R),
-                       bounds='T=%d range=%d block=%d, sequential thread schedule' % (T, R, blk)))
-    mc = [(2, 2, 1), (2, 2, 2)] if tier == 'quick' else [(T, R, blk) for T in (1, 2, 3) for R in (0, 1, 2, 3, 4) for blk in (1, 2) if R % blk == 0]
+                       bounds='T=%d range=%d block=%s, sequential thread schedule' % (T, R, blk or 'symbolic in [1,4] (non-dividing sizes must be rejected)')))
+    mc = [(2, 0, 0), (2, 2, 1), (2, 2, 2), (2, 3, 2)] if tier == 'quick' else [(T, R, 0) for T in (1, 2, 3) for R in (0, 1, 2, 3, 4)]
     for (T, R, blk) in mc:
-        qs.append(dict(name='multi_T%d_R%d_blk%d' % (T, R, blk), unit='launch', harness='h_launch.c',
-                       defs={'T': T, 'RANGE': R, 'BLOCKS': 1, 'BLK': blk, 'MULTI': 1}, unwind=max(R, T, 4) + 4, timeout=900, mem_gb=8,
+        qs.append(dict(name='multi_T%d_R%d_%s' % (T, R, 'blk%d' % blk if blk else 'blksym'), unit='launch', harness='h_launch.c',
+                       defs={'T': T, 'RANGE': R, 'BLOCKS': 1, 'BLK': blk, 'MULTI': 1}, unwind=max(R, T, 4) + 4, timeout=1200, mem_gb=20, object_bits=13,
                        desc='real parallel_range_blocks_multi body: result set == set of values whose callback returned true (any subset), every value visited exactly once; %d threads, %d values' % (T, R),
-                       bounds='T=%d range=%d block=%d, sequential thread schedule, unordered_set shim capacity 4' % (T, R, blk)))
+                       bounds='T=%d range=%d block=%s, sequential thread schedule, unordered_set shim capacity 4' % (T, R, blk or 'symbolic in [1,4]')))
     return qs
